@@ -212,6 +212,15 @@ pub fn big_case(seed: u64, jax: bool) -> Vec<String> {
         if !scn.facts.iter().any(|f| f.kind == kind && f.x == x && f.term == Some(t)) {
             scn.facts.push(Fact { kind, x, name: String::new(), term: Some(t) });
         }
+        // now and then the OMIM and the ORPHA disease with the SAME number on the same term, supplied one after the other
+        // (rows of phenotype.hpoa that differ in the database prefix only)
+        if rng.chance(1, 6) {
+            for kind in [Kind::Omim, Kind::Orpha] {
+                if !scn.facts.iter().any(|f| f.kind == kind && f.x == x && f.term == Some(t)) {
+                    scn.facts.push(Fact { kind, x, name: String::new(), term: Some(t) });
+                }
+            }
+        }
     }
     one_name_per_id(&mut scn);
     let mut all = vec![];
@@ -247,6 +256,42 @@ pub fn big_case(seed: u64, jax: bool) -> Vec<String> {
     }
     pairwise(&flagged, &mut d);
     d.truncate(10);
+    d
+}
+
+/// One fact set with more than 65,535 terms (the width of a u16) under two supply orders, through the Builder.
+pub fn huge_case(seed: u64) -> Vec<String> {
+    let mut rng = Rng::new(seed ^ 0xC16);
+    let n = 66_000 + rng.below(3_000) as usize;
+    let mut scn = Scenario::default();
+    scn.version = (2024, 3, 7);
+    scn.terms.push(TermSpec { id: 1, name: "T1".into(), obsolete: false, repl: None });
+    scn.terms.push(TermSpec { id: 118, name: "T118".into(), obsolete: false, repl: None });
+    scn.edges.push((1, 118));
+    for i in 0..n as u32 {
+        let id = 200 + i * 3;
+        scn.terms.push(TermSpec { id, name: format!("T{id}"), obsolete: false, repl: None });
+        // groups of 100: the first of a group below 118, the others below the first
+        scn.edges.push((if i % 100 == 0 { 118 } else { 200 + (i - i % 100) * 3 }, id));
+    }
+    for _ in 0..60 {
+        let kind = KINDS[rng.below(3) as usize];
+        let t = scn.terms[rng.below(scn.terms.len() as u64) as usize].id;
+        scn.facts.push(Fact { kind, x: rng.range(1, 9) as u32, name: String::new(), term: Some(t) });
+    }
+    one_name_per_id(&mut scn);
+    let all = vec![("builder/huge-as-given".to_string(), via_builder(&scn, EdgeOrder::AsGiven, false, false)),
+                   ("builder/huge-reversed".to_string(), via_builder(&reversed(&scn), EdgeOrder::AsGiven, false, false))];
+    let mut d = vec![];
+    for (name, b) in &all {
+        if let Ok(o) = b {
+            if o.len() != scn.terms.len() {
+                d.push(format!("{name}: len() = {} for {} supplied terms", o.len(), scn.terms.len()));
+            }
+        }
+    }
+    pairwise(&all, &mut d);
+    d.truncate(6);
     d
 }
 
@@ -288,6 +333,19 @@ pub fn run(args: &Args) {
     }
     // the big cases are spread over the shards
     let (k, n) = shard;
+    if big > 0 && k == n / 2 {
+        st.cases += 1;
+        st.nontrivial += 1;
+        st.bump("huge_fact_sets", 1);
+        let l = json!({"huge": seed});
+        guard_case(&mut st, &prop, "replay-order", &l, |st| {
+            let d = huge_case(seed);
+            st.evaluations += 2;
+            if !d.is_empty() {
+                st.violations.push(Violation { property: prop.clone(), what: d[0].clone(), replay: json!({"cmd": "replay-order", "property": prop, "huge": seed, "line": l, "diffs": d}) });
+            }
+        });
+    }
     for b in 0..big {
         if b % n.max(1) as u64 != k as u64 {
             continue;
@@ -310,6 +368,13 @@ pub fn run(args: &Args) {
 
 pub fn replay_one(v: &Value) -> bool {
     silence_panics();
+    if let Some(h) = v.get("huge").and_then(|b| b.as_u64()) {
+        let d = huge_case(h);
+        for l in &d {
+            println!("reproduced: {l}");
+        }
+        return !d.is_empty();
+    }
     if let Some(b) = v.get("big").and_then(|b| b.as_u64()) {
         let d = big_case(b, true);
         for l in &d {
